@@ -252,7 +252,7 @@ func opLines(g int, op scn.Op) int {
 		case scn.OpLines:
 			n += ev.Times
 		case scn.OpTracer:
-			n += len(ev.Trace)
+			n += len(ev.Trace) + ev.EchoBefore + ev.EchoAfter
 		}
 	}
 	return n
@@ -269,6 +269,14 @@ func genSeq(t *rapid.T, g, budget int, changer bool, sched string) []scn.Op {
 			op := scn.Op{K: scn.OpTracer, Pkg: rapid.SampledFrom([]string{"a", "b"}).Draw(t, "tpkg")}
 			for i := 0; i < n; i++ {
 				op.Sevs = append(op.Sevs, rapid.IntRange(1, 6).Draw(t, "tsev"))
+			}
+			if n >= 2 {
+				// the same handler also runs without a tracer: main line once plain, once traced, adjacent
+				op.Echo = rapid.SampledFrom([]int{0, 0, 0, 1, 2}).Draw(t, "echo")
+				if op.Echo != 0 {
+					op.EchoRep = rapid.SampledFrom([]int{1, 1, 2, 3}).Draw(t, "echo_rep")
+					budget -= op.EchoRep
+				}
 			}
 			seq = append(seq, op)
 			budget -= n
@@ -381,7 +389,7 @@ func scenarioLines(sc *scn.Scenario) (lines int, barrierChange, innerChange, pkg
 						twins = true
 					}
 				case scn.OpTracer:
-					lines += len(op.Sevs)
+					lines += opLines(g, op)
 					tracers = true
 				case scn.OpLevel, scn.OpUnset:
 					innerChange = true
@@ -395,6 +403,19 @@ func scenarioLines(sc *scn.Scenario) (lines int, barrierChange, innerChange, pkg
 		}
 	}
 	return
+}
+
+func hasEcho(sc *scn.Scenario) bool {
+	for _, ph := range sc.Phases {
+		for _, seq := range ph.G {
+			for _, op := range seq {
+				if op.K == scn.OpTracer && op.Echo != 0 {
+					return true
+				}
+			}
+		}
+	}
+	return false
 }
 
 func record(sc *scn.Scenario, rep *scn.Report, prefix string) {
@@ -433,6 +454,11 @@ func record(sc *scn.Scenario, rep *scn.Report, prefix string) {
 	add(rep.TracerNil > 0, "tracer_nil_fallback")
 	add(rep.TracerEither > 0, "tracer_concurrent_with_level_change")
 	add(rep.TracerWrites > 0, "tracer_with_collected_lines_received")
+	add(hasEcho(sc), "plain_echo_of_tracer_main_line_drawn")
+	add(rep.EchoAdjacent > 0, "plain_line_and_same_text_trace_adjacent_in_stream")
+	if rep.EchoAdjacent > 0 {
+		stats.ClassN(prefix+"adjacent_plain_trace_pairs_total", int64(rep.EchoAdjacent))
+	}
 	add(dups, "identical_consecutive_lines_drawn")
 	add(rep.MergedWrites > 0, "duplicates_merged_observed")
 	add(twins, "same_text_not_identical_drawn")
